@@ -19,6 +19,7 @@ import (
 	"testing"
 
 	"github.com/alicebob/miniredis/v2"
+	"github.com/redis/rueidis"
 	"github.com/rs/zerolog"
 
 	"github.com/dadrus/heimdall/internal/watcher"
@@ -204,13 +205,29 @@ func TestVerifC19RedisCredentials(t *testing.T) {
 			t.Fatalf("INFRA: base credentials not accepted: %s %s", o, d)
 		}
 
-		before := fc.get()
+		// what the redis client asks for when it (re)connects - on goroutines of its own
+		get := func() (c rueidis.AuthCredentials, panicked string) {
+			defer func() {
+				if r := recover(); r != nil {
+					panicked = fmt.Sprintf("credentials function of the client after the reload: %v\n%s", r, debug.Stack())
+				}
+			}()
+
+			return fc.get(), ""
+		}
+
+		before, _ := get()
 		outcome, detail := feed(in.data)
-		after := fc.get()
+
+		after, pd := get()
+		if pd != "" {
+			outcome, detail = "panicked", pd
+		}
 
 		// alive: a later valid change is still taken
 		o2, _ := feed([]byte("username: dave\npassword: d4v3\n"))
-		alive := o2 == "accepted" && fc.get().Username == "dave"
+		last, _ := get()
+		alive := o2 == "accepted" && last.Username == "dave"
 
 		enc.Encode(c19Event{ //nolint:errcheck
 			Ev: "feed", ID: id, Entry: "redis-credentials", Class: in.class, Outcome: outcome,
